@@ -48,9 +48,14 @@ type Ev struct {
 	OK     bool   `json:"ok,omitempty"`     // r, a
 	// a: the servers pushed through the API differ from the `server` lines of that upstream in the
 	// configuration file on disk (the file the operation has just written)
-	Mis    bool     `json:"mis,omitempty"`
-	Pushed []string `json:"pushed,omitempty"`
-	InFile []string `json:"infile,omitempty"`
+	// w: the upstreams of the file whose `server` lines this write changed; and, set when the operation is over, those of
+	// them that NGINX did not learn about before the operation returned although the operation used the API: no
+	// successful push of the same servers for that upstream and no successful reload came after the write
+	Ups      []string `json:"ups,omitempty"`
+	Unpushed []string `json:"unpushed,omitempty"`
+	Mis      bool     `json:"mis,omitempty"`
+	Pushed   []string `json:"pushed,omitempty"`
+	InFile   []string `json:"infile,omitempty"`
 }
 
 var errInjectedReload = errors.New("verif: injected reload failure")
@@ -75,12 +80,46 @@ func newRecMgr(rfail, afail []int) *recMgr {
 	return m
 }
 
+// upstreamServers parses `upstream <name> { ... server <addr> ...; }` blocks: name -> sorted non-backup addresses
+func upstreamServers(content []byte) map[string]string {
+	out := map[string]string{}
+	lines := strings.Split(string(content), "\n")
+	for i := 0; i < len(lines); i++ {
+		f := strings.Fields(lines[i])
+		if len(f) >= 3 && f[0] == "upstream" && f[2] == "{" {
+			var srv []string
+			for i++; i < len(lines); i++ {
+				g := strings.Fields(lines[i])
+				if len(g) > 0 && g[0] == "}" {
+					break
+				}
+				if len(g) >= 2 && g[0] == "server" && !strings.Contains(lines[i], " backup") {
+					srv = append(srv, strings.TrimSuffix(g[1], ";"))
+				}
+			}
+			sort.Strings(srv)
+			out[f[1]] = strings.Join(srv, " ")
+		}
+	}
+	return out
+}
+
 func (m *recMgr) write(k, prefix, name string, content []byte) bool {
 	key := prefix + name
 	old, ok := m.files[key]
 	changed := !ok || !bytes.Equal(old, content)
+	e := Ev{E: "w", K: k, N: name, C: changed}
+	if changed && (prefix == "c:" || prefix == "s:") {
+		before, after := upstreamServers(old), upstreamServers(content)
+		for u, srv := range after {
+			if b, had := before[u]; !had || b != srv {
+				e.Ups = append(e.Ups, u)
+			}
+		}
+		sort.Strings(e.Ups)
+	}
 	m.files[key] = append([]byte(nil), content...)
-	m.log = append(m.log, Ev{E: "w", K: k, N: name, C: changed})
+	m.log = append(m.log, e)
 	return changed
 }
 
@@ -226,6 +265,33 @@ func (m *recMgr) UpdateStreamServersInPlus(upstream string, servers []string) er
 func (m *recMgr) take() []Ev {
 	l := m.log
 	m.log = nil
+	usedAPI := false
+	for _, e := range l {
+		if e.E == "a" {
+			usedAPI = true
+		}
+	}
+	for _, e := range l {
+		if e.E == "r" && !e.OK {
+			usedAPI = false // the fall-back reload failed: the operation returns that error, nothing is claimed to be applied
+		}
+	}
+	for i := range l {
+		if l[i].E != "w" || !usedAPI {
+			continue
+		}
+		for _, u := range l[i].Ups {
+			ok := false
+			for _, e := range l[i+1:] {
+				if (e.E == "r" && e.OK) || (e.E == "a" && e.N == u && e.OK && !e.Mis) {
+					ok = true
+				}
+			}
+			if !ok {
+				l[i].Unpushed = append(l[i].Unpushed, u)
+			}
+		}
+	}
 	if l == nil {
 		l = []Ev{}
 	}
@@ -255,13 +321,15 @@ type shape struct {
 	nup     int
 	split   bool
 	minions int
+	hosts   int  // ing: number of hosts (rules), every host routes the same paths to the same Services (0 = 1)
+	dupPath bool // ing / minion: a second path to the first Service
 	xroute  bool // vs: delegates /x to a VirtualServerRoute in namespace "other" whose upstream uses a Service
 	// with the same name as the VirtualServer's own first Service
 }
 
 var pool = map[string]map[string]shape{
-	"ing":   {"a": {nup: 1}, "b": {nup: 2}, "c": {nup: 3}},
-	"merge": {"m": {minions: 1}, "n": {minions: 2}},
+	"ing":   {"a": {nup: 1}, "b": {nup: 2}, "c": {nup: 3}, "d": {nup: 1, hosts: 2, dupPath: true}, "e": {nup: 2, hosts: 3}},
+	"merge": {"m": {minions: 1}, "n": {minions: 2}, "o": {minions: 1, dupPath: true}},
 	"vs":    {"v": {nup: 1}, "w": {nup: 2, split: true}, "x": {nup: 2}, "y": {nup: 1, xroute: true}},
 	"ts":    {"t": {nup: 1}, "u": {nup: 2}, "p": {nup: 1}, "q": {nup: 1}},
 }
@@ -298,15 +366,26 @@ func fill(r *Res, plus, dynw bool) {
 	r.Weights = 0
 	switch r.Kind {
 	case "ing":
+		// updatePlusEndpoints: one call per rule and path, in order (the same upstream again for a second path to its Service)
 		g := []string{}
-		for i := 0; i < sh.nup; i++ {
-			g = append(g, fmt.Sprintf("%s-%s-%s.example.com-%s-svc%d-80", ns, r.Name, r.Name, r.Name, i))
+		for _, host := range ingHosts(r.Name, sh) {
+			for i := 0; i < sh.nup; i++ {
+				g = append(g, fmt.Sprintf("%s-%s-%s-%s-svc%d-80", ns, r.Name, host, r.Name, i))
+			}
+			if sh.dupPath {
+				g = append(g, fmt.Sprintf("%s-%s-%s-%s-svc0-80", ns, r.Name, host, r.Name))
+			}
 		}
 		r.Apis = append(r.Apis, g)
 	case "merge":
 		for j := 0; j < sh.minions; j++ {
 			mn := fmt.Sprintf("%s-min%d", r.Name, j)
-			r.Apis = append(r.Apis, []string{fmt.Sprintf("%s-%s-%s.example.com-%s-svc-80", ns, mn, r.Name, mn)})
+			u := fmt.Sprintf("%s-%s-%s.example.com-%s-svc-80", ns, mn, r.Name, mn)
+			if sh.dupPath {
+				r.Apis = append(r.Apis, []string{u, u})
+			} else {
+				r.Apis = append(r.Apis, []string{u})
+			}
 		}
 	case "vs":
 		g := []string{}
@@ -375,9 +454,20 @@ func endpointsFor(ev, i int) []string {
 	return out
 }
 
+func ingHosts(name string, sh shape) []string {
+	if sh.hosts <= 1 {
+		return []string{name + ".example.com"}
+	}
+	var out []string
+	for j := 0; j < sh.hosts; j++ {
+		out = append(out, fmt.Sprintf("%s-h%d.example.com", name, j))
+	}
+	return out
+}
+
 func buildIng(r Res) *configs.IngressEx {
 	sh := pool["ing"][r.Name]
-	host := r.Name + ".example.com"
+	hosts := ingHosts(r.Name, sh)
 	var paths, svcs []string
 	eps := map[string][]string{}
 	for i := 0; i < sh.nup; i++ {
@@ -386,11 +476,22 @@ func buildIng(r Res) *configs.IngressEx {
 		svcs = append(svcs, svc)
 		eps[svc+"80"] = endpointsFor(r.EV, i)
 	}
+	if sh.dupPath {
+		paths, svcs = append(paths, "/x"), append(svcs, svcs[0])
+	}
+	ing := ingress(r.Name, hosts[0], r.SV, "", paths, svcs)
+	valid := map[string]bool{hosts[0]: true}
+	for _, h := range hosts[1:] {
+		rule := ing.Spec.Rules[0].DeepCopy()
+		rule.Host = h
+		ing.Spec.Rules = append(ing.Spec.Rules, *rule)
+		valid[h] = true
+	}
 	return &configs.IngressEx{
-		Ingress:          ingress(r.Name, host, r.SV, "", paths, svcs),
+		Ingress:          ing,
 		Endpoints:        eps,
 		ExternalNameSvcs: map[string]bool{},
-		ValidHosts:       map[string]bool{host: true},
+		ValidHosts:       valid,
 		SecretRefs:       map[string]*secrets.SecretReference{},
 	}
 }
@@ -410,12 +511,17 @@ func buildMerge(r Res) *configs.MergeableIngresses {
 		mn := fmt.Sprintf("%s-min%d", r.Name, j)
 		p := fmt.Sprintf("/m%d", j)
 		svc := mn + "-svc"
+		mpaths, msvcs, mvalid := []string{p}, []string{svc}, map[string]bool{p: true}
+		if sh.dupPath {
+			mpaths, msvcs = append(mpaths, p+"x"), append(msvcs, svc)
+			mvalid[p+"x"] = true
+		}
 		minions = append(minions, &configs.IngressEx{
-			Ingress:          ingress(mn, host, r.SV, "minion", []string{p}, []string{svc}),
+			Ingress:          ingress(mn, host, r.SV, "minion", mpaths, msvcs),
 			Endpoints:        map[string][]string{svc + "80": endpointsFor(r.EV, j)},
 			ExternalNameSvcs: map[string]bool{},
 			ValidHosts:       map[string]bool{host: true},
-			ValidMinionPaths: map[string]bool{p: true},
+			ValidMinionPaths: mvalid,
 			SecretRefs:       map[string]*secrets.SecretReference{},
 		})
 	}
@@ -970,6 +1076,13 @@ func corpusCfg() []Case {
 		Ops: []Op{{Op: "enable"}, {Op: "add", Res: mk("vs", "y", 0, 0, true, false)},
 			{Op: "endp", Kind: "vs", Rs: []Res{*mk("vs", "y", 0, 1, true, false)}},
 			{Op: "endp", Kind: "vs", Rs: []Res{*mk("vs", "y", 0, 2, true, false), *mk("vs", "v", 0, 1, true, false)}}}})
+	// Plus: an Ingress with several hosts (and two paths) on one Service, and a minion with two paths on one Service
+	out = append(out, Case{Class: "corpus-plus-multihost", Plus: true, RFail: []int{}, AFail: []int{},
+		Ops: []Op{{Op: "enable"}, {Op: "add", Res: mk("ing", "d", 0, 0, true, false)}, {Op: "add", Res: mk("ing", "e", 0, 0, true, false)},
+			{Op: "add", Res: mk("merge", "o", 0, 0, true, false)},
+			{Op: "endp", Kind: "ing", Rs: []Res{*mk("ing", "d", 0, 1, true, false)}},
+			{Op: "endp", Kind: "ing", Rs: []Res{*mk("ing", "e", 0, 2, true, false), *mk("ing", "d", 0, 2, true, false)}},
+			{Op: "endp", Kind: "merge", Rs: []Res{*mk("merge", "o", 0, 1, true, false)}}}})
 	// TLS passthrough: a host edit, and a switch to a TCP listener and back, with the conditional reload of AddOrUpdateResources
 	mkp := func(name string, sv, ev, mode int, plus bool) Res {
 		r := Res{Kind: "ts", Name: name, SV: sv, EV: ev, Mode: mode}
@@ -1128,7 +1241,35 @@ type ctlRes struct {
 	task   string // task kind
 	svcs   []string
 	split  bool
-	scaled bool // Ingress with nginx.org/limit-req-scale: its rate limit depends on the number of controller replicas
+	scaled bool   // Ingress with nginx.org/limit-req-scale: its rate limit depends on the number of controller replicas
+	ns     string // namespace ("" = default)
+}
+
+// teamC is a watched namespace that can lose its -watch-namespace-label label
+const teamC = "team-c"
+
+func nsOfRes(name string) string {
+	if p, ok := ctlPool[name]; ok && p.ns != "" {
+		return p.ns
+	}
+	return ns
+}
+
+func nsOfSvc(svc string) string {
+	if svc == "c1-svc" || svc == "c2-svc" {
+		return teamC
+	}
+	return ns
+}
+
+func fileOfNS(kind, namespace, name string) string {
+	switch kind {
+	case "vs":
+		return "vs_" + namespace + "_" + name
+	case "ts":
+		return "ts_" + namespace + "_" + name
+	}
+	return namespace + "-" + name
 }
 
 var ctlPool = map[string]ctlRes{
@@ -1140,9 +1281,12 @@ var ctlPool = map[string]ctlRes{
 	"s": {kind: "ing", task: "ingress", svcs: []string{"s-svc"}, scaled: true},
 	// mergeable Ingress: master "m" (no paths) and its minion "mm" (path /mm -> mm-svc) are two Ingress objects, one resource
 	"m": {kind: "merge", task: "ingress", svcs: []string{"mm-svc"}},
+	// resources of the namespace that can stop being watched
+	"c1": {kind: "ing", task: "ingress", svcs: []string{"c1-svc"}, ns: teamC},
+	"c2": {kind: "vs", task: "virtualserver", svcs: []string{"c2-svc"}, ns: teamC},
 }
-var ctlNames = []string{"a", "b", "s", "m", "v", "w", "t"}
-var ctlSvcs = []string{"a-svc", "b-svc", "s-svc", "mm-svc", "v-svc", "w-svc0", "w-svc1", "t-svc", "z-svc"}
+var ctlNames = []string{"a", "b", "s", "c1", "m", "v", "w", "c2", "t"} // per kind in the order of GetResources: namespace, then name
+var ctlSvcs = []string{"a-svc", "b-svc", "s-svc", "mm-svc", "v-svc", "w-svc0", "w-svc1", "t-svc", "z-svc", "c1-svc", "c2-svc"}
 
 // objects the ingress tasks can be about: the resources of kind ing/merge, and the minion
 var ctlIngressObjs = []string{"a", "b", "s", "m", "mm"}
@@ -1227,6 +1371,7 @@ type world struct {
 	mgv        int             // variant of the MGMT ConfigMap the controller holds
 	sec        map[string]int  // special Secret role -> content variant in the cluster
 	secGone    map[string]bool // the Secret object has been deleted (the controller keeps the files)
+	nsGone     bool            // team-c lost its label and the controller has dropped its informers
 	ready      bool            // the start-up phase is over (bookkeeping of isNginxReady)
 	mainOnDisk bool            // the main configuration has been written
 	replicas   int             // ingressControllerReplicas
@@ -1249,7 +1394,8 @@ func newWorldCase(c *Case) *world {
 
 func (w *world) res(name string) Res {
 	p := ctlPool[name]
-	r := Res{Kind: p.kind, Name: name, SV: w.known[name], File: fileOf(p.kind, name)}
+	rns := nsOfRes(name)
+	r := Res{Kind: p.kind, Name: name, SV: w.known[name], File: fileOfNS(p.kind, rns, name)}
 	ver, mul := w.known[name]*1000, 1
 	for _, s := range p.svcs {
 		if p.kind == "merge" && w.known[name]%10 == 0 {
@@ -1274,10 +1420,10 @@ func (w *world) res(name string) Res {
 		}
 		return r
 	case "ing":
-		g = append(g, fmt.Sprintf("%s-%s-%s.example.com-%s-80", ns, name, name, p.svcs[0]))
+		g = append(g, fmt.Sprintf("%s-%s-%s.example.com-%s-80", rns, name, name, p.svcs[0]))
 	case "vs":
 		for i := range p.svcs {
-			g = append(g, fmt.Sprintf("vs_%s_%s_u%d", ns, name, i))
+			g = append(g, fmt.Sprintf("vs_%s_%s_u%d", rns, name, i))
 		}
 		if p.split && w.dynw {
 			r.Weights = 1
@@ -1312,7 +1458,30 @@ func (w *world) all() []Res {
 func (w *world) predict(t *Task) {
 	t.Work, t.Found, t.Reports = []Op{}, false, true
 	switch t.Kind {
+	case "nsloss":
+		// the namespace team-c has lost its label: syncNamespace -> cleanupUnwatchedNamespacedResources
+		t.Reports = false // errors are only logged; the resources are gone from the controller's view
+		if w.nsGone {
+			break
+		}
+		w.nsGone = true
+		lists := map[string][2][]string{}
+		for _, n := range []string{"c1", "c2"} {
+			p := ctlPool[n]
+			if _, ok := w.obj[n]; ok { // the object is in the namespace's lister, configured or not
+				l := lists[p.kind]
+				l[0], l[1] = append(l[0], n), append(l[1], fileOfNS(p.kind, teamC, n))
+				lists[p.kind] = l
+			}
+			delete(w.known, n)
+		}
+		t.Work = append(t.Work, Op{Op: "batchdel", Kind: "ing", Names: lists["ing"][0], Files: lists["ing"][1]},
+			Op{Op: "batchdel", Kind: "vs", Names: lists["vs"][0], Files: lists["vs"][1]},
+			Op{Op: "updatetss", Rs: []Res{}, Names: []string{}, Files: []string{}})
 	case "ingress", "virtualserver", "transportserver":
+		if w.nsGone && nsOfRes(t.Name) == teamC {
+			break // a task of a namespace that is not watched any more
+		}
 		if t.Name == "m" || t.Name == "mm" {
 			// the mergeable Ingress: what the controller configures is a function of both objects
 			switch t.Act {
@@ -1353,10 +1522,13 @@ func (w *world) predict(t *Task) {
 			}
 		} else if _, was := w.known[t.Name]; was {
 			delete(w.known, t.Name)
-			t.Work = append(t.Work, Op{Op: "del", Kind: p.kind, Name: t.Name, File: fileOf(p.kind, t.Name)})
+			t.Work = append(t.Work, Op{Op: "del", Kind: p.kind, Name: t.Name, File: fileOfNS(p.kind, nsOfRes(t.Name), t.Name)})
 			t.Reports = false
 		}
 	case "endpointslice":
+		if w.nsGone && nsOfSvc(t.Name) == teamC {
+			break
+		}
 		if t.Name == nicSvc {
 			// the EndpointSlice of the controller's own Service: t.EV ready endpoints
 			t.Reports = false // updateNumberOfIngressControllerReplicas only logs errors
@@ -1454,7 +1626,7 @@ func (w *world) predict(t *Task) {
 
 func svcObj(name string) *api_v1.Service {
 	return &api_v1.Service{
-		ObjectMeta: meta_v1.ObjectMeta{Name: name, Namespace: ns},
+		ObjectMeta: meta_v1.ObjectMeta{Name: name, Namespace: nsOfSvc(name)},
 		Spec:       api_v1.ServiceSpec{Ports: []api_v1.ServicePort{{Name: "p", Port: 80, TargetPort: intstr.FromInt(8080), Protocol: api_v1.ProtocolTCP}}},
 	}
 }
@@ -1462,7 +1634,7 @@ func svcObj(name string) *api_v1.Service {
 func sliceObj(svc string, ev int) *discovery_v1.EndpointSlice {
 	ready, port, pname := true, int32(8080), "p"
 	return &discovery_v1.EndpointSlice{
-		ObjectMeta:  meta_v1.ObjectMeta{Name: svc + "-slice", Namespace: ns, Labels: map[string]string{"kubernetes.io/service-name": svc}},
+		ObjectMeta:  meta_v1.ObjectMeta{Name: svc + "-slice", Namespace: nsOfSvc(svc), Labels: map[string]string{"kubernetes.io/service-name": svc}},
 		AddressType: discovery_v1.AddressTypeIPv4,
 		Ports:       []discovery_v1.EndpointPort{{Name: &pname, Port: &port}},
 		Endpoints:   []discovery_v1.Endpoint{{Addresses: []string{fmt.Sprintf("10.0.%d.1", ev)}, Conditions: discovery_v1.EndpointConditions{Ready: &ready}}},
@@ -1480,6 +1652,7 @@ func ctlIngress(name string, sv int) *networking.Ingress {
 		return ing
 	}
 	ing := ingress(name, name+".example.com", sv, "", []string{"/"}, []string{ctlPool[name].svcs[0]})
+	ing.Namespace = nsOfRes(name)
 	pt := networking.PathTypePrefix
 	ing.Spec.Rules[0].HTTP.Paths[0].PathType = &pt
 	if ctlPool[name].scaled {
@@ -1534,7 +1707,7 @@ func mgmtCM(level, v int) *api_v1.ConfigMap {
 func ctlVS(name string, sv int) *conf_v1.VirtualServer {
 	p := ctlPool[name]
 	vs := &conf_v1.VirtualServer{
-		ObjectMeta: meta_v1.ObjectMeta{Name: name, Namespace: ns, Generation: int64(sv + 1)},
+		ObjectMeta: meta_v1.ObjectMeta{Name: name, Namespace: nsOfRes(name), Generation: int64(sv + 1)},
 		Spec:       conf_v1.VirtualServerSpec{IngressClass: "nginx", Host: name + ".vs.example.com"},
 	}
 	for i, s := range p.svcs {
@@ -1572,6 +1745,43 @@ func cmObj(mv int) *api_v1.ConfigMap {
 
 // mutate stores what the informer would have stored before the task is dequeued.
 func mutate(v *k8s.VerifC12, t Task) (string, error) {
+	// objects of a namespace whose informers are gone cannot be delivered any more: only the stale task remains
+	switch t.Kind {
+	case "ingress", "virtualserver", "transportserver":
+		if rns := nsOfRes(t.Name); rns != ns {
+			if !v.Watched(rns) {
+				return rns + "/" + t.Name, nil
+			}
+			key := rns + "/" + t.Name
+			var err error
+			switch {
+			case t.Kind == "ingress" && t.Act == "set":
+				err = v.Put("ingress", ctlIngress(t.Name, t.SV))
+			case t.Kind == "ingress" && t.Act == "delete":
+				err = v.Remove("ingress", ctlIngress(t.Name, 0))
+			case t.Kind == "virtualserver" && t.Act == "set":
+				err = v.Put("virtualserver", ctlVS(t.Name, t.SV))
+			case t.Kind == "virtualserver" && t.Act == "delete":
+				err = v.Remove("virtualserver", ctlVS(t.Name, 0))
+			}
+			return key, err
+		}
+	case "endpointslice":
+		if sns := nsOfSvc(t.Name); sns != ns && t.Name != nicSvc {
+			key := sns + "/" + t.Name + "-slice"
+			if !v.Watched(sns) {
+				return key, nil
+			}
+			if t.Act == "set" {
+				return key, v.Put("endpointslice", sliceObj(t.Name, t.EV))
+			} else if t.Act == "delete" {
+				return key, v.Remove("endpointslice", sliceObj(t.Name, 0))
+			}
+			return key, nil
+		}
+	case "nsloss":
+		return teamC, v.SetNamespace(teamC, false)
+	}
 	switch t.Kind {
 	case "ingress":
 		if t.Act == "set" {
@@ -1695,10 +1905,16 @@ func runCtl(c *Case) {
 	v, err := k8s.VerifC12NewOpts(cnf, k8s.VerifC12Opts{Plus: c.Plus, DynWeights: c.DynW,
 		Listeners:           []conf_v1.Listener{{Name: "tcp-t", Port: 9000, Protocol: "TCP"}},
 		DefaultServerSecret: nicNS + "/" + secretRoles["default"].name, WildcardTLSSecret: nicNS + "/" + secretRoles["wildcard"].name,
-		ExternalServiceName: nicSvc, Namespaces: []string{ns, nicNS}})
+		ExternalServiceName: nicSvc, Namespaces: []string{ns, nicNS, teamC}, WatchNamespaceLabel: "verif/watch=true"})
 	if err != nil {
 		c.Obs = map[string]string{"error": err.Error()}
 		return
+	}
+	for _, n := range []string{ns, nicNS, teamC} {
+		if err := v.SetNamespace(n, true); err != nil {
+			c.Obs = map[string]string{"error": err.Error()}
+			return
+		}
 	}
 	for _, role := range secretRoleNames {
 		if w0.roleActive(role) {
@@ -1737,6 +1953,9 @@ func runCtl(c *Case) {
 			kind := t.Kind
 			if kind == "stale" {
 				kind = t.Name // the kind of the stale task
+			}
+			if kind == "nsloss" {
+				kind = "namespace"
 			}
 			evs, err := v.Sync(kind, key, t.QLen)
 			if err != nil {
@@ -1783,6 +2002,9 @@ func genTask(r *vh.Rng, w *world) Task {
 		if r.Chance(1, 6) {
 			t.Act = "touch"
 		}
+	case x == 25 && !w.nsGone:
+		// the namespace team-c loses its label
+		t = Task{Kind: "nsloss", Name: teamC, Act: "touch"}
 	case x >= 19 && x < 25:
 		// left over from a namespace that is no longer watched
 		t = Task{Kind: "stale", Name: vh.Pick(r, []string{"ingress", "secret", "endpointslice", "virtualserver", "transportserver", "service"}), Act: "touch", SV: r.Intn(4)}
@@ -2046,6 +2268,25 @@ func corpusCtl() []Case {
 		add("corpus-endp-reloadfail-merge", plus, false, []int{1}, af, []Task{ing("m", "set", 0, 1), ing("mm", "set", 0, 0), eps("mm-svc", "set", 1, 0), eps("mm-svc", "set", 2, 0)})
 		add("corpus-endp-reloadfail-vs", plus, false, []int{1}, af, []Task{vsT("v", 0), eps("v-svc", "set", 1, 0), eps("v-svc", "set", 2, 0)})
 		add("corpus-endp-reloadfail-ts", plus, false, []int{1}, af, []Task{tsT("t", 0), eps("t-svc", "set", 1, 0), eps("t-svc", "set", 2, 0)})
+	}
+	// a namespace loses its label (real syncNamespace / cleanupUnwatchedNamespacedResources): first, in the middle and last
+	// of the start-up queue, first / middle / last of a batch, and alone; its later tasks are stale
+	c1 := func(act string, sv, q int) Task { return Task{Kind: "ingress", Name: "c1", Act: act, SV: sv, QLen: q} }
+	c2 := func(act string, sv, q int) Task {
+		return Task{Kind: "virtualserver", Name: "c2", Act: act, SV: sv, QLen: q}
+	}
+	nsl := func(q int) Task { return Task{Kind: "nsloss", Name: teamC, Act: "touch", QLen: q} }
+	for _, plus := range []bool{false, true} {
+		add("corpus-nsloss-startup-first", plus, false, []int{}, []int{}, []Task{nsl(3), c1("set", 0, 2), ing("a", "set", 0, 1), ing("b", "set", 0, 0), ing("a", "set", 1, 0)})
+		add("corpus-nsloss-startup-middle", plus, false, []int{}, []int{}, []Task{c1("set", 0, 3), c2("set", 0, 2), nsl(1), ing("a", "set", 0, 0), c1("set", 1, 0), eps("c1-svc", "set", 1, 0)})
+		add("corpus-nsloss-startup-last", plus, false, []int{}, []int{}, []Task{c1("set", 0, 2), ing("a", "set", 0, 1), nsl(0), ing("a", "set", 1, 0)})
+		add("corpus-nsloss-batch", plus, false, []int{}, []int{}, []Task{c1("set", 0, 1), c2("set", 0, 0),
+			nsl(2), ing("a", "set", 0, 1), c1("set", 1, 0), ing("b", "set", 0, 0)})
+		add("corpus-nsloss-batch", plus, false, []int{}, []int{}, []Task{c1("set", 0, 1), c2("set", 0, 0),
+			ing("a", "set", 0, 2), nsl(1), ing("b", "set", 0, 0)})
+		add("corpus-nsloss-batch", plus, false, []int{2}, []int{}, []Task{c1("set", 0, 1), c2("set", 0, 0),
+			ing("a", "set", 0, 2), ing("b", "set", 0, 1), nsl(0), nsl(0), c2("set", 1, 0)})
+		add("corpus-nsloss-alone", plus, false, []int{2}, []int{}, []Task{c1("set", 0, 1), c2("set", 0, 0), nsl(0), c1("delete", 0, 0)})
 	}
 	// tasks of a namespace that is not watched any more, at every position: last of the start-up queue, first / middle /
 	// last of a batch that changed files, alone
